@@ -37,27 +37,53 @@ Proof.
   f_equal; lia.
 Qed.
 
-Lemma wf_rename_rp : forall c db rp nn d sgd k, wf c -> rekey c = true -> nn <> 0 -> wf (fst (rename_rp c db rp nn d sgd k)).
+(* policies are filtered; every default that names a policy names one that stays *)
+Lemma wf_filter_pols : forall c f, wf c ->
+  (forall d p, In d (dbs c) -> In p (pols c) -> (rp_db p, rp_name p) = (db_name d, db_default d) -> db_default d <> 0 -> f p = true) ->
+  wf (set_pols c (filter f (pols c))).
 Proof.
-  intros c db rp nn d sgd k H RK Hnn. unfold rename_rp.
-  destruct (get_db c db) as [x|] eqn:Ex; [|exact H].
-  destruct (get_pol c db rp) as [p|] eqn:Eg; [|exact H].
-  destruct (get_db_spec _ _ _ Ex) as (Hx & Exn & _).
-  destruct (get_pol_spec _ _ _ _ Eg) as (Hfind & Hp & Edb & _ & Hn0 & _).
-  match goal with |- context [if ?t then err c else _] => destruct t eqn:Etaken end; [exact H|].
-  destruct (negb (spec_valid _ _)); [exact H|]. rewrite RK.
-  set (d' := opt_or d (rp_dur p)). set (sgd' := norm_sgd (opt_or sgd (rp_sgdur p)) d'). set (igd' := norm_igd (rp_igdur p) sgd').
+  intros c f H Keep. constructor; cbn [pols dbs ptview ptnum nodes set_pols max_sg max_sh max_ig max_ix max_mst max_node].
+  - eapply subl_Forall; [apply subl_filter | exact (wf_groups _ H)].
+  - eapply uniq_le_subl; [|exact (wf_sg _ H)]. apply subl_flat_map, subl_filter.
+  - eapply uniq_le_subl; [|exact (wf_sh _ H)]. apply subl_flat_map, subl_filter.
+  - eapply uniq_le_subl; [|exact (wf_ig _ H)]. apply subl_flat_map, subl_filter.
+  - eapply uniq_le_subl; [|exact (wf_ix _ H)]. apply subl_flat_map, subl_filter.
+  - eapply uniq_lt_subl; [|exact (wf_mst _ H)]. apply subl_flat_map, subl_filter.
+  - exact (wf_node _ H).
+  - exact (wf_dbn _ H).
+  - eapply subl_NoDup; [|exact (wf_poln _ H)]. apply subl_map, subl_filter.
+  - eapply subl_Forall; [apply subl_filter | exact (wf_poldb _ H)].
+  - eapply subl_Forall; [apply subl_filter|]. eapply Forall_impl; [|exact (wf_refs _ H)]. intros q. apply refs_ok_same. reflexivity.
+  - apply Forall_forall. intros d Hd. pose proof (wf_def _ H) as D. rewrite Forall_forall in D.
+    destruct (D d Hd) as [E0|Hin]; [left; exact E0|].
+    destruct (Z.eq_dec (db_default d) 0) as [E0|N0]; [left; exact E0 | right].
+    unfold pol_keys in *. cbn [pols set_pols]. apply in_map_iff in Hin. destruct Hin as [q [Eq Hq]].
+    apply in_map_iff. exists q. split; [exact Eq|]. apply filter_In. split; [exact Hq|]. eapply Keep; eassumption.
+  - exact (wf_ptv _ H).
+  - exact (wf_nonneg _ H).
+  - eapply subl_Forall; [apply subl_filter | exact (wf_dur _ H)].
+  - eapply subl_Forall; [apply subl_filter | exact (wf_nm _ H)].
+Qed.
+
+Lemma find_filter_some : forall {A} (g f : A -> bool) l x, find g l = Some x -> f x = true -> find g (filter f l) = Some x.
+Proof.
+  intros A g f. induction l as [|a l IH]; cbn; [discriminate|]. intros x. destruct (g a) eqn:Eg; intros Hf Fx.
+  - inversion Hf; subst. rewrite Fx. cbn. rewrite Eg. reflexivity.
+  - destruct (f a); [cbn; rewrite Eg|]; apply IH; assumption.
+Qed.
+
+(* the renaming itself, the new key being the old one or free *)
+Lemma wf_rename_core : forall c db x p nn d' sgd' igd' k, wf c -> In x (dbs c) -> db_name x = db ->
+  find (is_pol db (rp_name p)) (pols c) = Some p -> In p (pols c) -> rp_db p = db ->
+  (nn = rp_name p \/ ~ In (db, nn) (pol_keys c)) -> 0 < sgd' ->
+  wf (let c1 := upd_pol c db (rp_name p) (fun q => pol_rename (pol_set_meta q d' sgd' igd' (rp_mark q)) nn nn) in
+      if k || (db_default x =? rp_nm p) then set_default c1 db nn else c1).
+Proof.
+  intros c db x p nn d' sgd' igd' k H Hx Exn Hfind Hp Edb Hfresh Hsgd. cbv zeta.
   set (g := fun q => pol_rename (pol_set_meta q d' sgd' igd' (rp_mark q)) nn nn).
-  set (old := rp_name p).
-  (* the new key is the old one or is free *)
-  assert (Hfresh : nn = old \/ ~ In (db, nn) (pol_keys c)).
-  { destruct (nn =? rp) eqn:Er.
-    - left. destruct (get_pol_name _ _ _ _ Eg) as [E0|E0]; [lia | unfold old; lia].
-    - right. unfold resolve in Etaken. replace (nn =? 0) with false in Etaken by lia. replace (nn =? 0) with false in Etaken by lia.
-      destruct (find_pol c db nn) eqn:Ef; [discriminate|]. apply find_pol_none. exact Ef. }
+  set (old := rp_name p) in *.
   assert (Hold : db_default x = rp_nm p <-> db_default x = old).
   { pose proof (wf_nm _ H) as NM. rewrite Forall_forall in NM. rewrite (NM p Hp). reflexivity. }
-  cbn [fst ok].
   set (c1 := upd_pol c db old g).
   assert (Ekeys : forall k0, In k0 (pol_keys c) -> k0 <> (db, old) -> In k0 (pol_keys c1)).
   { intros k0 Hk Hne. unfold pol_keys, c1, upd_pol. cbn [pols set_pols]. apply updf_map_In_other; [exact Hk|].
@@ -67,7 +93,8 @@ Proof.
     apply In_updf_first. exact Hfind. }
   assert (Knd : NoDup (pol_keys c1)).
   { unfold pol_keys, c1, upd_pol. cbn [pols set_pols]. apply updf_map_NoDup; [exact (wf_poln _ H)|].
-    intros y Hy Py. assert (y = p) by (eapply find_is_pol_unique; eassumption). subst y. cbn [g pol_rename pol_set_meta rp_db rp_name].
+    intros y Hy Py. assert (y = p) by (eapply find_is_pol_unique; [exact H | exact Hfind | exact Hy | exact Py]). subst y.
+    cbn [g pol_rename pol_set_meta rp_db rp_name].
     destruct Hfresh as [->|Nin]; [left; reflexivity | right; rewrite Edb; exact Nin]. }
   assert (Gen : forall c2, pols c2 = pols c1 -> map db_name (dbs c2) = map db_name (dbs c) -> Forall (default_ok c2) (dbs c2) ->
             nodes c2 = nodes c -> ptview c2 = ptview c -> ptnum c2 = ptnum c ->
@@ -76,7 +103,7 @@ Proof.
   { intros c2 Ep Edn Hdef End Epv Epn (E1 & E2 & E3 & E4 & E6 & E5).
     eapply (wf_pols_meta_gen2 c c2 (is_pol db old) g); try eassumption.
     - intros q. cbn. tauto.
-    - intros q _. cbn. apply norm_sgd_pos.
+    - intros q _. cbn. exact Hsgd.
     - intros q _. reflexivity.
     - unfold pol_keys. rewrite Ep. exact Knd.
     - tauto.
@@ -101,6 +128,39 @@ Proof.
     assert (y = x) by (eapply (NoDup_map_eq db_name); [exact (wf_dbn _ H) | exact Hy | exact Hx | congruence]). subst y.
     destruct (D x Hx) as [E0|Hin]; [left; exact E0 | right]. apply Ekeys; [exact Hin|].
     intro E. inversion E as [[E1 E2]]. apply orb_false_iff in Emove. destruct Emove as [_ Em]. apply Hold in E2. lia.
+Qed.
+
+
+Lemma wf_rename_rp : forall c db rp nn d sgd k, wf c -> rekey c = true -> wf (fst (rename_rp c db rp nn d sgd k)).
+Proof.
+  intros c db rp nn d sgd k H RK. unfold rename_rp.
+  destruct (get_db c db) as [x|] eqn:Ex; [|exact H].
+  destruct (get_pol c db rp) as [p|] eqn:Eg; [|exact H].
+  destruct (get_db_spec _ _ _ Ex) as (Hx & Exn & _).
+  destruct (get_pol_spec _ _ _ _ Eg) as (Hfind & Hp & Edb & _ & Hn0 & _). unfold find_pol in Hfind.
+  match goal with |- context [if ?t then err c else _] => destruct t eqn:Etaken end; [exact H|].
+  destruct (negb (spec_valid _ _)); [exact H|]. rewrite RK. cbn [fst ok].
+  set (old := rp_name p) in *.
+  destruct (nn =? old) eqn:Eno.
+  - apply (wf_rename_core c db x p nn); try assumption; [left; unfold old in Eno; lia | apply norm_sgd_pos].
+  - (* an entry stored under the new name, if there is one, is overwritten; that only happens for the empty name *)
+    set (f := fun q => negb (is_pol db nn q)).
+    assert (Hnn : nn = 0 \/ ~ In (db, nn) (pol_keys c)).
+    { destruct (Z.eq_dec nn 0) as [E0|N0]; [left; exact E0 | right].
+      destruct (nn =? rp) eqn:Er.
+      - exfalso. destruct (get_pol_name _ _ _ _ Eg) as [E1|E1]; [lia | unfold old in Eno; lia].
+      - unfold resolve in Etaken. replace (nn =? 0) with false in Etaken by lia. replace (nn =? 0) with false in Etaken by lia.
+        destruct (find_pol c db nn) eqn:Ef; [discriminate|]. apply find_pol_none. exact Ef. }
+    assert (W0 : wf (set_pols c (filter f (pols c)))).
+    { apply wf_filter_pols; [exact H|]. intros d0 q Hd0 Hq Ek Ndef. unfold f, is_pol.
+      destruct ((rp_db q =? db) && (rp_name q =? nn)) eqn:E; [|reflexivity]. exfalso. inversion Ek as [[E1 E2]].
+      destruct Hnn as [E0|Nin]; [lia|]. apply Nin. unfold pol_keys. apply in_map_iff. exists q. split; [f_equal; lia | exact Hq]. }
+    assert (Fp : f p = true) by (unfold f, is_pol; unfold old in Eno; lia).
+    apply (wf_rename_core (set_pols c (filter f (pols c))) db x p nn); try assumption; [| | |apply norm_sgd_pos].
+    + cbn [pols set_pols]. apply find_filter_some; assumption.
+    + cbn [pols set_pols]. apply filter_In. split; assumption.
+    + right. unfold pol_keys. cbn [pols set_pols]. intro Hin. apply in_map_iff in Hin. destruct Hin as [q [Eq Hq]].
+      apply filter_In in Hq. destruct Hq as [_ Fq]. unfold f, is_pol in Fq. inversion Eq. lia.
 Qed.
 
 (* ---------------------------------------------------------------- cancelling a group deletion, guarded variant *)
